@@ -11,7 +11,10 @@ DECL_KINDS = ('funcs', 'vars', 'classes')
 SEGS = ['a', 'b', 'C', 'D']
 NAMESPACES = [('global',)] + [('global', x) for x in SEGS] + \
     [('global', x, y) for x in SEGS for y in SEGS if x != y][:8] + \
-    [('global', 'a', 'b', 'C'), ('global', 'C', 'a', 'D'), ('global', 'a', 'b', 'C', 'D')]
+    [('global', 'a', 'b', 'C'), ('global', 'C', 'a', 'D'), ('global', 'a', 'b', 'C', 'D')] + \
+    [('global', 'a', 'a'), ('global', 'a', 'b', 'a'), ('global', 'C', 'C'),
+     ('global', 'a', 'a', 'b')]     # a path may repeat a component (local function named like
+                                    # its enclosing one, nested true_block scopes)
 NAMES = {k: [k[0] + n for n in ('a', 'b', 'C', 'D', 'x')] for k in KINDS}
 # funcs and classes use the segment names so that they create reachable namespaces;
 # names are kind-specific (the generator never gives a variable and a function one name)
